@@ -62,6 +62,10 @@ class TexPeer:
         if self.chatter:
             out.append("note: Running TeX ...")
             out.append("This is a simulated engine $$ not a measurement")
+            # what engines print in scroll mode: echoed source context (with the marker in the
+            # middle of a line), blank lines
+            out.append(r"l.5 \typeout{$$$\the\wd\measurebox,\the\ht\measurebox")
+            out.append("")
         lines = source.splitlines()
         index = 0
         for i, line in enumerate(lines):
@@ -84,7 +88,8 @@ class TexPeer:
         if self.fault == "exit":
             code = 1
             self.fired["peer_exit"] = self.fired.get("peer_exit", 0) + 1
-        return types.SimpleNamespace(returncode=code, stdout="\n".join(out) + "\n", stderr="")
+        eol = "\r\n" if self.chatter and self.seed % 2 else "\n"  # universal newlines or not
+        return types.SimpleNamespace(returncode=code, stdout=eol.join(out) + eol, stderr="")
 
     # -- file seam for the xelatex path ---------------------------------------------
     def open(self, path, mode="r", **kw):
